@@ -40,7 +40,8 @@ class C17(Spec):
             path = "S" + pv.hexs(self.tok(rng, 0, 6, forbid=b";")) if rng.random() < 0.5 else "-"
             dom = "S" + pv.hexs(self.tok(rng, 1, 8, forbid=b"; ")) if rng.random() < 0.4 else "-"
             ma = str(rng.choice([0, 1, 59, 2147483647, rng.randrange(2 ** 31)])) if rng.random() < 0.4 else "-"
-            ex = str(rng.choice([0, 1, 951782400, 4102444800, 9000000000, rng.randrange(9000000000)])) if rng.random() < 0.15 else "-"
+            ex = str(rng.choice([0, 1, -1, 951782400, 4102444800, 9000000000, 9183110400, 9214646399, -9214560000, -9183024000, rng.randrange(9000000000),
+                                 rng.randint(-9214560000, 9214646399)])) if rng.random() < 0.15 else "-"   # the whole range of the Date model, both ends
             sec = rng.choice("01"); ho = rng.choice("01")
             exts = []
             used = set()
